@@ -102,7 +102,19 @@ func (g *RoutingGen) Run(nOps int) {
 				for j := 0; j < nf; j++ {
 					fs = append(fs, g.r.field())
 				}
-				rules = append(rules, strings.Join(fs, ","))
+				rule := strings.Join(fs, ",")
+				if g.r.Chance(12) {
+					// an extra empty field (leading / trailing / doubled comma) in an otherwise plausible rule
+					switch g.r.Intn(3) {
+					case 0:
+						rule = "," + rule
+					case 1:
+						rule += ","
+					default:
+						rule = strings.Replace(rule, ",", ",,", 1)
+					}
+				}
+				rules = append(rules, rule)
 			}
 			err := w.SetRules(c, rules)
 			allValid := true
@@ -126,8 +138,21 @@ func (g *RoutingGen) Run(nOps int) {
 		s, d, p := g.r.ident(4), g.r.ident(4), g.r.ident(4)
 		if len(stored) > 0 && g.r.Chance(75) {
 			f := strings.Split(stored[g.r.Intn(len(stored))], ",")
+			// (a stored rule is well-formed on the unchanged tree; be robust when it is not)
+			var nonEmpty []string
+			for _, x := range f {
+				if x != "" {
+					nonEmpty = append(nonEmpty, x)
+				}
+			}
+			if len(nonEmpty) == 3 {
+				f = nonEmpty
+			}
+			for len(f) < 3 {
+				f = append(f, "*")
+			}
 			pickf := func(x, alt string) string {
-				if x == "*" {
+				if x == "*" || x == "" {
 					return alt
 				}
 				switch g.r.Intn(8) {
